@@ -65,7 +65,7 @@ CORPUS = [
 def cases(rng: random.Random, tier: str):
     from .c04 import C_load_corpus  # noqa: F401
     out = [dict(c) for c in CORPUS] + _load_corpus()
-    for _ in range(700 if tier == "quick" else 5000):
+    for _ in range(2200 if tier == "quick" else 14000):
         g = rand_admg(rng, 0 if rng.random() < 0.05 else 2, 6 if rng.random() < 0.4 else 5)
         out.append({"kind": "ci", "g": g, "k": rng.choice([None, None, 0, 1, 1, 2, 2, 3, 4]),
                     "policy": rng.choice(["topological", "topological", "len_lex"]), "all": rng.random() < 0.35})
